@@ -241,6 +241,9 @@ def eigen(X, P, NSIG=None, method='music', threshold=None, NFFT=default_NFFT,
     if NSIG != None and threshold != None:
         raise ValueError("NSIG and threshold cannot be provided together")
 
+    if threshold is not None and threshold < 1:
+        raise ValueError('threshold must be greater than or equal to 1')
+
     if NSIG is not None:
         if NSIG < 0:
             raise ValueError('NSIG must be positive')
